@@ -18,10 +18,12 @@
      bytes    the byte counter                                  txsBytes
      cache    LRU list of tx keys, front = oldest               LRUTxCache.list
      height   height of the last Update                         mem.height
-     inflight ABCI CheckTx requests sent and not yet answered   [tx, kind, peer, h]
+     inflight ABCI CheckTx requests sent and not yet answered   [tx, kind, peer, h, gas]
               kind "new" (first-time check) / "recheck"; v0: FIFO (one ABCI connection,
               responses arrive in request order); v1: answered in any order (every
-              CheckTxSync caller is its own goroutine); h = height captured at admit (v1)
+              CheckTxSync caller is its own goroutine); h = height captured at admit (v1);
+              kind "adding" (+ gas) exists only under Weak_NonAtomicAdmission: a v0 response
+              that passed its checks and has not inserted yet
      rcur,rend  v0 only: recheckCursor / recheckEnd as pool positions, 0 = nil
      pre, post  installed filters: PreCheckMaxBytes(pre) / PostCheckMaxGas(post), -1 = none
                                                                 (state/tx_filter.go)
@@ -43,7 +45,11 @@ CONSTANTS Weak_NoDupCheckOnInsert,      \* insert without looking at the key ind
           Weak_FullCheckOnlyOnAdmit,    \* no second isFull / canAddTx when the response arrives
           Weak_EvictWithoutBytes,       \* a removal that forgets to decrease txsBytes
           Weak_CacheNotUpdatedOnCommit, \* Update does not push committed txs to the cache
-          Weak_RecheckKeepsRejected     \* a rejected recheck leaves the tx in the pool
+          Weak_RecheckKeepsRejected,    \* a rejected recheck leaves the tx in the pool
+          Weak_NonAtomicAdmission       \* v0: the checks of resCbFirstTime and its addTx are not one
+                                        \* critical section (the code before the proposed admission
+                                        \* mutex, when callbacks run on the callers' goroutines, i.e.
+                                        \* with the local ABCI client)
 
 NoneV == -1                              \* "no filter installed"
 
@@ -139,7 +145,7 @@ Admit(cfg, s, tx, peer) ==
             [st |-> Fin(AddPeer(PushBoth(cfg, s, tx), tx, peer)), res |-> "incache"]
        ELSE [st |-> Fin([PushBoth(cfg, s, tx) EXCEPT !.inflight =
                            Append(@, [tx |-> tx, kind |-> "new", peer |-> peer,
-                                      h |-> IF cfg.version = "v1" THEN s.height ELSE 0])]),
+                                      h |-> IF cfg.version = "v1" THEN s.height ELSE 0, gas |-> 0])]),
              res |-> "ok"]
 
 NewEntry(cfg, s, rq, v) ==
@@ -149,18 +155,31 @@ NewEntry(cfg, s, rq, v) ==
    height |-> IF cfg.version = "v1" THEN rq.h ELSE s.height,   \* v0: mem.height at response time
    peers  |-> {rq.peer}]
 
-(* v0 resCbFirstTime (via reqResCb): the response to the OLDEST outstanding request *)
+(* v0 resCbFirstTime (via reqResCb): the response to the OLDEST outstanding request (the
+   oldest one that is not already past its checks, see Weak_NonAtomicAdmission) *)
+FirstLive(s) == LET L == {i \in DOMAIN s.inflight : s.inflight[i].kind # "adding"}
+                IN IF L = {} THEN 0 ELSE MinOf(L)
+
 ResponseV0(cfg, s, v) ==
-  LET rq == Head(s.inflight)
+  LET i  == FirstLive(s)
+      rq == s.inflight[i]
       tx == rq.tx
-      s1 == [s EXCEPT !.inflight = Tail(@)]
+      s1 == [s EXCEPT !.inflight = RemoveAt(@, i)]
   IN IF Accepted(s, v) THEN
         IF ~Weak_FullCheckOnlyOnAdmit /\ IsFull(cfg, s1, cfg.txsize[tx])
         THEN [st |-> Fin(RemBoth(s1, tx)), res |-> "full"]           \* "mempool might have a space later"
         ELSE IF ~Weak_NoDupCheckOnInsert /\ InPool(s1, tx)
         THEN [st |-> Fin(AddPeer(s1, tx, rq.peer)), res |-> "dup"]   \* proposed fix for S4
+        ELSE IF Weak_NonAtomicAdmission
+        THEN [st |-> Fin([s EXCEPT !.inflight[i].kind = "adding", !.inflight[i].gas = v.gas]), res |-> "checked"]
         ELSE [st |-> Fin(Insert(s1, NewEntry(cfg, s1, rq, v))), res |-> "added"]
      ELSE [st |-> Fin(IF cfg.keepInvalid THEN s1 ELSE RemBoth(s1, tx)), res |-> "rejected"]
+
+\* only under Weak_NonAtomicAdmission: the addTx of a response whose checks ran earlier
+InsertV0(cfg, s, i) ==
+  LET rq == s.inflight[i]
+      s1 == [s EXCEPT !.inflight = RemoveAt(@, i)]
+  IN [st |-> Fin(Insert(s1, NewEntry(cfg, s1, rq, [gas |-> rq.gas, prio |-> 0, sender |-> ""]))), res |-> "added"]
 
 (* v1 addNewTransaction: the response to ANY outstanding first-time request i *)
 \* victims sorted: lowest priority first, ties: newer (later position) first
@@ -223,7 +242,7 @@ Update(cfg, s, h, txs, oks, npre, npost) ==
                        !.post = IF npost = KeepF THEN @ ELSE npost,
                        !.gone = @ \cup ToSet(txs),
                        !.stale = @ \cup (ToSet(txs) \cap NewInflight(s))]
-      rq == [p \in 1..Len(s2.pool) |-> [tx |-> s2.pool[p].tx, kind |-> "recheck", peer |-> 0, h |-> 0]]
+      rq == [p \in 1..Len(s2.pool) |-> [tx |-> s2.pool[p].tx, kind |-> "recheck", peer |-> 0, h |-> 0, gas |-> 0]]
       s3 == IF Len(s2.pool) > 0 /\ cfg.recheck
             THEN [s2 EXCEPT !.inflight = @ \o rq,
                             !.rcur = IF cfg.version = "v0" THEN 1 ELSE 0,
